@@ -140,6 +140,11 @@ func TestC03RealPacer(t *testing.T) {
 			RateFreq: rapid.SampledFrom([]int{0, 1, 10, 50, 1000}).Draw(t, "freq"), RatePerMS: rapid.SampledFrom([]int{1, 100, 1000, 60000}).Draw(t, "per"),
 			TimeoutMS: rapid.SampledFrom([]int{0, 0, 50, 200, 30000}).Draw(t, "timeout"), WaitMS: rapid.SampledFrom([]int{10, 500, 2000, 120000}).Draw(t, "wait"),
 			ResponseMS: rapid.SampledFrom([]int{0, 0, 1, 40}).Draw(t, "response"), Connections: rapid.SampledFrom([]int{0, 0, 1, 2}).Draw(t, "conns")}
+		if rapid.IntRange(0, 9).Draw(t, "hugepool") == 0 {
+			// thousands of workers from the start, all of them needed at once
+			c.MaxWorkers = uint64(rapid.SampledFrom([]int{4096, 4097, 5000, 10000}).Draw(t, "hugemax"))
+			c.Workers, c.RateFreq, c.WaitMS, c.ResponseMS = c.MaxWorkers-uint64(rapid.IntRange(0, 1).Draw(t, "hugeless")), 0, 10, 0
+		}
 		if c.RateFreq > 0 && c.WaitMS*c.RateFreq/c.RatePerMS > 100000 {
 			c.WaitMS = 10 // (keep the number of released hits small)
 		}
